@@ -119,8 +119,8 @@ fn comment_text(d: &mut Dec) -> String {
         4 => " @name: \"not metadata\";".into(),
         5 => " i1 + i2".into(),
         6 => " ünï \"quoted\" \\ ".into(),
-        7 => format!("rule{}", d.below(50)),
-        8 => format!("  line {}  ", d.below(50)),
+        7 => format!("Rule{} MiXed İǅΣ", d.below(50)),
+        8 => format!("  Line {} of the DESCRIPTION  ", d.below(50)),
         _ => format!(" c{} // nested", d.below(9)),
     }
 }
@@ -151,7 +151,7 @@ fn build_script(bytes: &[u8]) -> Script {
                 let (e, v) = const_value(&mut d, 1);
                 (e, Some(v))
             } else {
-                let s = format!("meta name {}", d.below(20));
+                let s = format!("Meta NAME {} İ", d.below(20));
                 (Expr::Value(Value::String(s.clone())), Some(Value::String(s)))
             }
         } else if d.below(8) == 0 {
@@ -194,9 +194,11 @@ fn build_script(bytes: &[u8]) -> Script {
     };
     // D12 class: a multi-line string literal one of whose lines starts with //
     let comment_in_string = d.below(40) == 39;
-    let (expr, etoks, expr_text) = if comment_in_string {
+    // a multi-line string literal whose line breaks are content (written raw, with the text's own line ending)
+    let multiline_string = !comment_in_string && d.below(20) == 19;
+    let (expr, etoks, expr_text) = if comment_in_string || multiline_string {
         let inner = print::tokens(&expr, Mode::Min, None).expect("image trees are printable");
-        let s = format!("x{nl}// inside{nl}");
+        let s = if comment_in_string { format!("x{nl}// inside{nl}") } else { format!("x{nl}  y // no comment{nl}{nl}z\r") };
         let mut t = vec![Tok::Fix("(")];
         t.extend(inner);
         t.push(Tok::Fix(")"));
